@@ -197,7 +197,11 @@ func c25Iterate(dir string) ([]c25Iter, error) {
 
 // c25CheckRestart: after a clean Close every written chunk of a retained file is iterated in write order.
 func c25CheckRestart(obs *c25Obs) (sig, msg string) {
-	its, err := c25Iterate(obs.dir)
+	var its []c25Iter
+	var err error
+	if p, stack := vx.Guard(func() { its, err = c25Iterate(obs.dir) }); p != nil {
+		return "restart-iterate-panic", fmt.Sprintf("%v\n%s", p, stack)
+	}
 	if err != nil {
 		return "restart-iterate-error", err.Error()
 	}
@@ -455,9 +459,15 @@ func c25TornTail(t *testing.T, r *vx.Run) {
 			}
 			os.WriteFile(filepath.Join(d2, filepath.Base(f)), b, 0o666)
 		}
-		its, err := c25Iterate(d2)
+		var its []c25Iter
+		var err error
+		p, stack := vx.Guard(func() { its, err = c25Iterate(d2) })
 		os.RemoveAll(d2)
 		cases++
+		if p != nil {
+			r.Violation("torn-tail-panic", fmt.Sprintf("newest file truncated at %d: iteration after restart panicked: %v\n%s", off, p, stack), map[string]any{"kind": "torn", "offset": off})
+			continue
+		}
 		var cerr *CorruptionErr
 		if err != nil && !errors.As(err, &cerr) {
 			// opening may also fail for a header-less file: acceptable as "detected"
